@@ -379,7 +379,7 @@ func (h *Session) Parse(p []byte) (frame Frame, err error) {
 			return frame, err
 		}
 		// process echo reply to unblock ping if running
-		if icmpFrame.Type() == ICMP4TypeEchoReply {
+		if icmpFrame.Type() == ICMP4TypeEchoReply && frame.offsetIP4 != 0 { // ICMP (protocol 1) belongs to IPv4
 			echo := ICMPEcho(icmpFrame)
 			if err := echo.IsValid(); err != nil {
 				return frame, err
@@ -396,7 +396,7 @@ func (h *Session) Parse(p []byte) (frame Frame, err error) {
 			return frame, err
 		}
 		// process echo reply to unblock ping if running
-		if icmpFrame.Type() == ICMP6TypeEchoReply {
+		if icmpFrame.Type() == ICMP6TypeEchoReply && frame.offsetIP6 != 0 { // ICMPv6 (protocol 58) belongs to IPv6
 			echo := ICMPEcho(icmpFrame)
 			if err := echo.IsValid(); err != nil {
 				return frame, err
